@@ -26,6 +26,10 @@ var unmarshalMap sync.Map // in-memory cache of the mapping of Go types to Messa
 
 // MsgType accepts a protobuf message and returns the corresponding MessageType value.
 func MsgType(msg interface{}) MessageType {
+	if msg == nil {
+		// a nil interface value has no type to classify
+		return MessageTypeUnknown
+	}
 	typ := reflect.TypeOf(msg)
 	val, found := unmarshalMap.Load(typ)
 	if found {
